@@ -356,6 +356,32 @@ fn run(ctx: &Ctx, report: &mut Report) {
         }
     }
     run_family_n(ctx, report, &mut ordinal);
+    // one insert that supersedes more than a thousand entries (count reported, nothing else
+    // touched), followed by a late child that must stay out
+    {
+        let mut big_pre = pre.clone();
+        for i in 0..1100u32 {
+            big_pre.push(Spec::new(0, 0, format!("a{i:04}").as_bytes(), 1, Val::X));
+        }
+        for key in [&b"a"[..], &b""[..], &b"a0"[..]] {
+            for val in [Val::X, Val::Y, Val::Del] {
+                for ts in [1u64, 2] {
+                    for path in [Path::R, Path::L] {
+                        ordinal += 1;
+                        if !ctx.mine(ordinal) {
+                            continue;
+                        }
+                        let steps = vec![
+                            Step { path, spec: Spec::new(0, 0, key, ts, val) },
+                            Step { path: Path::R, spec: Spec::new(0, 0, b"a0500", 1, Val::Y) },
+                        ];
+                        report.count("big_prune_cases", 1);
+                        one(report, &big_pre, &steps, ordinal);
+                    }
+                }
+            }
+        }
+    }
     // life cycle: sequences over a small universe plus {remove and re-create the document, ask
     // every question}; only the sequences that contain one of the two and end with an entry
     let u = universe(0, &[0], &[b"", b"a", b"ab"], 2);
